@@ -31,7 +31,8 @@ def r1(ctx):
             s = term_sig(unwrap_ovf(o))
             if o[0] == "bin" and o[1] == "Eq" and ev(ctx, o[3]) == 0 and truth is False and "Shr" in s:
                 facts_ok["zero"] = True
-            if o[0] == "bin" and o[1] == "Lt" and truth is False and s.startswith("Lt(len(") and "Shr" in term_sig(unwrap_ovf(o[3])):
+            if o[0] == "bin" and o[1] == "Lt" and truth is False and s.startswith("Lt(len(ok(decode(") and "Shr" in term_sig(unwrap_ovf(o[3])):
+                # the bytes that follow the 8-byte leader (remainder of the second fixed-width read)
                 facts_ok["short"] = True
         ctx.check(P, rule, "a zero-length or incomplete frame ends the log before it is sliced", all(facts_ok.values()), "len == 0 || data.len() < len => Ok(None) dominates buffer[4..8+len] and the checksum",
                   "payload slice at %s is not guarded by both `len != 0` and `data.len() >= len` (%s)" % (loc(fa, idx[0]), facts_ok), [site_desc(fa, idx[0])], key="C07|C07.R1|incomplete frame")
